@@ -8,8 +8,14 @@ target_alignment run on these terms; z3 proves
     polarity == sum_ij y_i y_j K_ij (with and without class-label rescaling y -> y / n_class);
     target_alignment == <K, Y Y^T>_F / (||K||_F ||Y Y^T||_F)   (square roots by their defining equations),
 and the kernel is called exactly once per required pair (upper triangle for the square matrix).
-The post-processing functions (threshold / displace / flip / closest PSD / depolarizing mitigation) are defined through
-eigendecompositions and convex optimisation: outside.
+Spectral post-processing (threshold_matrix, displace_matrix, flip_matrix): the input ranges over ALL real symmetric matrices of
+size 2 and 3, written K = V diag(w) V^T with V a product of Givens rotations with symbolic angles and w symbolic ascending
+eigenvalues; numpy.linalg.eigh / eigvalsh (LAPACK) are replaced by their contract (they return this w and V).  The REAL functions run
+on K, forking on the signs of the eigenvalues; z3 proves per path
+    result == V diag(f(w)) V^T entrywise with f = max(., 0) / (. - min(w_0, 0)) / |.|   (the documented spectral map), f(w) >= 0
+    (which is a positive-semidefiniteness certificate: x^T V D V^T x = sum_k d_k (V^T x)_k^2), result == K when w_0 >= 0,
+and y^T (V^T result V) y >= 0 for all y directly.
+closest_psd_matrix (convex optimisation through cvxpy) and mitigate_depolarizing_noise: outside.
 """
 from __future__ import annotations
 
@@ -53,6 +59,137 @@ class _NumS:
         if name in self.vals:
             return float(self.vals[name])
         return 0.3 + 0.13 * (sum(map(ord, name)) % 11)
+
+
+# ------------------------------------------------------------------ spectral post-processing
+SPECTRAL = {"threshold_matrix": lambda w, w0neg: [max(x, 0.0) for x in w], "displace_matrix": lambda w, w0neg: [x - min(w[0], 0.0) for x in w], "flip_matrix": lambda w, w0neg: [abs(x) for x in w]}
+GIVENS = {2: [(0, 1)], 3: [(0, 1), (0, 2), (1, 2)]}
+
+
+def givens(n, i, j, c, s):
+    G = np.eye(n, dtype=object)
+    G[i, i], G[j, j], G[i, j], G[j, i] = c, c, -s, s
+    return G
+
+
+class _NPProxy:
+    """numpy with linalg.eigh / eigvalsh replaced by their contract for the one matrix under test"""
+
+    def __init__(self, K, w, V):
+        self._K, self._w, self._V = K, w, V
+        self.linalg = self
+
+    def __getattr__(self, name):
+        return getattr(np.linalg if name in ("norm", "inv", "det") else np, name)
+
+    def eigh(self, K):
+        assert K is self._K, "eigh called on another matrix"
+        return np.array(self._w, dtype=object), self._V.copy()
+
+    def eigvalsh(self, K):
+        assert K is self._K, "eigvalsh called on another matrix"
+        return np.array(self._w, dtype=object)
+
+
+def spectral_build(S, fname, n):
+    import pennylane.kernels.postprocessing as PP
+
+    w = [S.real(f"w{k}") for k in range(n)]
+    for k in range(n - 1):
+        S.constrain(">=0", (w[k + 1] - w[k]).p)
+    V = np.eye(n, dtype=object)
+    for k, (i, j) in enumerate(GIVENS[n]):
+        t = S.param(f"t{k}", D=1, wrap=False)
+        V = V @ givens(n, i, j, t.cos(), t.sin())
+    D = np.zeros((n, n), dtype=object)
+    for k in range(n):
+        D[k, k] = w[k]
+    K = V @ D @ V.T
+    old = PP.np
+    PP.np = _NPProxy(K, w, V)
+    try:
+        R = getattr(PP, fname)(K)
+    finally:
+        PP.np = old
+    return K, R, V, w
+
+
+def spectral_num(fname, n, vals):
+    """replay on floats with the real LAPACK routines"""
+    import pennylane.kernels.postprocessing as PP
+
+    w = sorted(float(vals.get(f"w{k}", [-0.7, 0.4, 1.3][k])) for k in range(n))
+    V = np.eye(n)
+    for k, (i, j) in enumerate(GIVENS[n]):
+        t = float(vals.get(f"t{k}", 0.4 + 0.5 * k))
+        V = V @ np.array(givens(n, i, j, np.cos(t), np.sin(t)), dtype=float)
+    K = V @ np.diag(w) @ V.T
+    K = (K + K.T) / 2
+    try:
+        R = np.asarray(getattr(PP, fname)(K), dtype=float)
+    except Exception as e:  # noqa: BLE001
+        return True, f"{fname} on the symmetric matrix with eigenvalues {w}: raised {e!r}"
+    want = V @ np.diag(SPECTRAL[fname](w, w[0] < 0)) @ V.T
+    lam = float(np.min(np.linalg.eigvalsh((R + R.T) / 2)))
+    d = float(np.max(np.abs(R - want)))
+    return (lam < -1e-8 or d > 1e-7), f"{fname} on the symmetric matrix with eigenvalues {np.round(w, 6).tolist()}: smallest eigenvalue of the result {lam:.6g}, max deviation from the documented spectral map {d:.3g}"
+
+
+def spectral_work(item):
+    fname, n = item
+    name = f"{fname} on all symmetric {n}x{n} matrices"
+    sx.install_shims()
+
+    def b(S):
+        return spectral_build(S, fname, n)
+
+    def consume(S, v, i):
+        import z3
+
+        K, R, V, w = v
+        R = sx.arr(np.asarray(R, dtype=object))
+
+        def rp(model):
+            vals = {**model.get("vars", {}), **model.get("params", {})}
+            ok, obs = spectral_num(fname, n, vals)
+            return ok, {"kind": "spectral", "fn": fname, "n": n, "values": {k: vals[k] for k in vals if k[0] in "wt" and k[1:].isdigit()}, "observed": obs}
+
+        neg = bool(w[0] < 0)  # forks (already decided on this path by the function itself)
+        if fname == "threshold_matrix":
+            d = [x if bool(x > 0) else S.lift(0) for x in w]
+        elif fname == "displace_matrix":
+            d = [x - w[0] for x in w] if neg else list(w)
+        else:
+            d = [x if bool(x > 0) else -x for x in w]
+        D = np.zeros((n, n), dtype=object)
+        for k in range(n):
+            D[k, k] = d[k]
+        want = sx.arr(V @ D @ V.T)
+        tag = f"{name} [path {i}: w0 {'<' if neg else '>='} 0]"
+        out = [obl.prove(S, f"{tag}: result == V diag(f(w)) V^T (documented spectral map)", list(R.ravel()), list(want.ravel()), replay=rp, signature=f"spectral:{fname}", timeout=120)]
+        zd = [S.z3poly(sx.arr(np.asarray(x, dtype=object)).item().p) for x in d]
+        out.append(obl.prove_claim(S, f"{tag}: f(w) >= 0 (with the identity above: a positive-semidefiniteness certificate)", z3.And(*[x >= 0 for x in zd]), replay=rp, signature=f"spectral:{fname}:psd", timeout=60))
+        if not neg:
+            out.append(obl.prove(S, f"{tag}: no effect on a matrix without negative eigenvalues", list(R.ravel()), list(sx.arr(K).ravel()), replay=rp, signature=f"spectral:{fname}:noeffect", timeout=120))
+        if n <= 3:
+            y = [S.real(f"y{k}") for k in range(n)]
+            M = V.T @ R @ V
+            q = sum((y[a] * M[a, b2] * y[b2] for a in range(n) for b2 in range(n)), S.lift(0))
+            q = sx.arr(np.asarray(q, dtype=object)).item()
+            out.append(obl.prove_claim(S, f"{tag}: y^T (V^T result V) y >= 0 for all y", S.z3poly(q.p) >= 0, replay=rp, signature=f"spectral:{fname}:psd-direct", timeout=120, used_polys=[q.p]))
+        return out
+
+    try:
+        return obl.run_instance(name, b, consume, max_paths=64)
+    except (TypeError, AttributeError, IndexError, KeyError, ValueError, AssertionError) as e:
+        import traceback
+
+        tb = traceback.format_exc(limit=6)[-600:]
+        for vals in ({}, {"w0": -1.0, "w1": -0.5, "w2": -0.25}, {"w0": -1.0, "w1": 0.0, "w2": 0.5}, {"w0": 0.0, "w1": 0.0, "w2": 0.0}):
+            ok, obs = spectral_num(fname, n, vals)
+            if ok:
+                return [{"name": name, "status": "violated", "symbols": ["w", "t"], "nontrivial": True, "queries": 0, "signature": f"spectral:{fname}", "detail": obs, "replay": {"kind": "spectral", "fn": fname, "n": n, "values": vals, "observed": obs}}]
+        return [{"name": name, "status": "unsupported", "detail": f"{e!r} {tb}"}]
 
 
 def points(n, offset=0):
@@ -127,6 +264,8 @@ def _num(kind, arg, vals):
 
 
 def replay(p):
+    if p.get("kind") == "spectral":
+        return spectral_num(p["fn"], p["n"], p["values"])
     arg = tuple(p["arg"]) if isinstance(p["arg"], list) else p["arg"]
     return _num(p["kind"], arg, p["values"])
 
@@ -191,8 +330,19 @@ def run(ctx):
     ctx.shapes = len(items)
     ctx.encode(qp.kernels.kernel_matrix, qp.kernels.square_kernel_matrix, qp.kernels.polarity, qp.kernels.target_alignment)
     ctx.bound(kernel="uninterpreted: one fresh real symbol per pair of data points (symmetric for the square matrix; 1 on the diagonal when declared normalised)", data="1-4 data points", labels=LABELS,
-              outside="threshold_matrix, displace_matrix, flip_matrix, closest_psd_matrix, mitigate_depolarizing_noise (eigendecompositions / convex optimisation: positive semidefiniteness is not a polynomial identity), "
+              spectral="threshold / displace / flip on ALL real symmetric 2x2 and 3x3 matrices K = V diag(w) V^T (Givens angles and ascending eigenvalues symbolic)",
+              outside="closest_psd_matrix (convex optimisation through cvxpy), mitigate_depolarizing_noise, matrices larger than 3x3, the LAPACK routines themselves (replaced by their contract), "
                       "embedding kernels built from circuits (C26 covers the simulator)")
-    ctx.assume(*sx.SHIM_NOTES[:3], "sqrt by its defining equation; the alignment is compared after cross-multiplication plus a sign obligation")
+    ctx.assume(*sx.SHIM_NOTES[:3], "sqrt by its defining equation; the alignment is compared after cross-multiplication plus a sign obligation",
+               "stub: numpy.linalg.eigh / eigvalsh return the eigenvalues w and eigenvectors V from which the symbolic input matrix was built (their contract: ascending eigenvalues, K = V diag(w) V^T); the functions' results are spectral functions of K, hence independent of the choice of eigenbasis")
     ctx.rule = "one entry-wise z3 obligation per (function, data size / labels / options) plus a structural obligation on the kernel calls"
     ctx.pmap(work, items, timeout_each=600)
+    spec = [(f, n) for f in SPECTRAL for n in (2, 3)]
+    if ctx.only:
+        spec = [it for it in spec if ctx.only in str(it)]
+    if spec:
+        import pennylane.kernels.postprocessing as PP
+
+        ctx.encode(PP.threshold_matrix, PP.displace_matrix, PP.flip_matrix)
+        ctx.shapes += len(spec)
+        ctx.pmap(spectral_work, spec, timeout_each=900)
